@@ -797,6 +797,7 @@ def rule_r2(ctx, repo):
         judge_site(ctx, repo, k, "_predict_fixed_cutoff", lambda fh: {"fh": fh, "return_pred_int": K(False)},
                    no_inline=("_predict_last_window",))
     r2_dispatch(ctx, repo, bw)
+    r2_stored_horizon(ctx, repo)
     poly = repo.cls("sktime/forecasting/trend.py:PolynomialTrendForecaster")
     judge_site(ctx, repo, poly, "_predict", lambda fh: {"fh": fh, "return_pred_int": K(False), "X": K(None)})
     stack = repo.cls("sktime/forecasting/compose/_stack.py:StackingForecaster")
@@ -895,6 +896,86 @@ def r2_dispatch(ctx, repo, bw):
                 ctx.violation("R2", c2, "mixed horizon returns only %r: requested steps are dropped" % (v,), loc)
             else:
                 ctx.undecided("R2", c2, "returned value not interpretable: %r" % (v,), loc)
+
+
+def r2_stored_horizon(ctx, repo):
+    """The horizon remembered by ``_set_fh`` is the validated horizon itself (``check_fh(fh)``): not a conversion that
+    depends on the cutoff at the time of the call -- the cutoff moves with every update, the request does not --
+    and ``predict`` forecasts exactly the remembered horizon."""
+    fhcls = repo.cls(FH_PATH + ":ForecastingHorizon")
+    users = {"_OptionalForecastingHorizonMixin": repo.cls("sktime/forecasting/naive.py:NaiveForecaster"),
+             "_RequiredForecastingHorizonMixin": repo.cls("sktime/forecasting/compose/_stack.py:StackingForecaster")}
+    for mixin, cls in sorted(users.items()):
+        hit = repo.lookup_method(cls, "_set_fh")
+        if hit is None or hit[0].name != mixin:
+            raise AnalysisError("anchor missing: %s._set_fh (resolved for %s)" % (mixin, cls.name))
+        k, fn = hit
+        loc = ctx.loc(k.module, fn)
+        for fitted in (False, True):
+            for given in ("relative", "absolute", "list"):
+                it = PInterp(repo)
+                prev = it.make_fh(Vec("fh_fit"), True) if fitted else K(None)
+                me, _ = make_self(it, cls, True, {"_is_fitted": K(fitted), "_fh": prev})
+                if given == "list":
+                    arg = TV("builtins.list", "input", ["values"])
+                    try:
+                        want = it.instantiate(fhcls, [arg], {"is_relative": K(True)}, State(), Frame(k.module, fn))
+                    except AlwaysRaises:
+                        want = None
+                else:
+                    arg = want = it.make_fh(STEPS, given == "relative")
+                rets, raises, _ = irun(it, k.module, fn, {"self": me, "fh": arg}, cls, k)
+                cons = "%s._set_fh[%s horizon,%s]" % (mixin, given, "fitted" if fitted else "not fitted")
+                stores = [e for e in it.stores if e["obj"] is me and e["attr"] == "_fh"]
+                must_store = (mixin.startswith("_Optional")) or not fitted
+                if want is None or not it.is_fh(want):
+                    ctx.undecided("R2", cons, "reference check_fh result not interpretable", loc)
+                    continue
+                if not rets and must_store:
+                    no_result(ctx, "R2", cons, raises, "a valid horizon is rejected on every path", loc)
+                    continue
+                if must_store and not stores:
+                    ctx.violation("R2", cons, "the requested horizon is not remembered", loc)
+                    continue
+                if not stores:
+                    ctx.ok("R2", cons, "horizon of fit is kept (the new one is only compared)", loc, nontrivial=False)
+                    continue
+                for e in stores:
+                    v = e["val"]
+                    if not it.is_fh(v):
+                        ctx.undecided("R2", cons, "remembered horizon not interpretable: %r" % (v,), loc)
+                    else:
+                        ctx.check(v == want, "R2", cons, "remembers the validated horizon itself",
+                                  "remembers %r instead of the validated request %r (a conversion frozen at the current cutoff "
+                                  "no longer denotes the requested time points after the cutoff moves)" % (v, want),
+                                  ctx.loc(k.module, e["node"]))
+    # predict() forecasts the remembered horizon
+    naive = users["_OptionalForecastingHorizonMixin"]
+    for given in ("relative", "absolute"):
+        it = PInterp(repo, no_inline=("check_is_fitted",))
+        seen = []
+
+        def hook(it_, frame, call, fname, args, kwargs, st, seen=seen):
+            r = PInterp._phook(it_, it_, frame, call, fname, args, kwargs, st)
+            if r is not NotImplemented:
+                return r
+            if astq.call_name(call) == "_predict" and isinstance(call.func, ast.Attribute) \
+                    and isinstance(it_.ev(call.func.value, st, frame), SelfV):
+                seen.append(args[0] if args else kwargs.get("fh"))
+                return Opq("prediction")
+            return NotImplemented
+
+        it.extra_hook = hook
+        me, _ = make_self(it, naive, True, {"_fh": K(None)})
+        req = it.make_fh(STEPS, given == "relative")
+        rets, raises, k, fn = run_method(it, repo, me, "predict", {"fh": req})
+        cons = "_SktimeForecaster.predict[%s horizon]:forecasts-request" % given
+        loc = ctx.loc(k.module, fn)
+        if not seen:
+            ctx.undecided("R2", cons, "no call of _predict was interpreted", loc)
+        else:
+            ctx.check(all(v == req for v in seen) if all(it.is_fh(v) for v in seen) else None, "R2", cons,
+                      "_predict receives the requested horizon", "_predict receives %r for the request %r" % (seen, req), loc)
 
 
 def r2_pred_int(ctx, repo, skc, rel):
